@@ -170,7 +170,7 @@ EXTRA_FIELDS = [
 
 def gen_response(tape, method='GET', allow_truncate=False, allow_surplus=True, allow_close_framing=True,
                  allow_nobody_with_length=True, allow_coding=True, allow_lf=True, allow_fold=True,
-                 big_ok=True, content_types=None, surplus_same_read_only=False, allow_interim=False, allow_stray_crlf=False):
+                 big_ok=True, content_types=None, surplus_same_read_only=False, allow_interim=False, allow_stray_crlf=False, allow_length_framing=True):
     r = Resp()
     rng = tape.subrng('resp.rng')
     r.method = method
@@ -225,12 +225,12 @@ def gen_response(tape, method='GET', allow_truncate=False, allow_surplus=True, a
                     fields.append(('Content-Length', str(5 + tape.draw(500, 'nobody.cl'))))
         r.desc['nobody_with_length'] = any(n in ('Content-Length', 'Transfer-Encoding') for n, _ in fields)
     else:
-        opts = [(4, 'length'), (4, 'chunked')]
+        opts = [(4, 'length'), (4, 'chunked')] if allow_length_framing else [(4, 'chunked')]
         if allow_close_framing:
             opts.append((2, 'close'))
         framing = tape.weighted(opts, 'framing')
         if version == 'HTTP/1.0' and framing == 'chunked':
-            framing = 'length'
+            framing = 'length' if allow_length_framing else 'close'
     r.framing = framing
     hints = []
     if framing == 'length':
